@@ -476,7 +476,16 @@ def _main(check, args):
                 continue
             small, tries = (rec, 0) if args.no_shrink else shrink(check, rec, f["oracle"])
             final, _ = run_pool(check.module, "execute", [small], workers=1)
-            ff = [x for x in final[0]["failures"] if x["oracle"] == f["oracle"]][0]
+            ffs = [x for x in final[0].get("failures", []) if x["oracle"] == f["oracle"]]
+            if ffs:
+                ff = ffs[0]
+            else:
+                # failed in the batch and on re-execution but not on this third execution: the system under test
+                # itself behaves differently from execution to execution (e.g. uninitialised memory); report the
+                # confirmed failure and say so
+                small, final = rec, conf
+                ff = dict([x for x in conf[0]["failures"] if x["oracle"] == f["oracle"]][0])
+                ff["msg"] += " [intermittent: failed in the batch and on re-execution, not on a third execution]"
             path = write_replay(check, args.seed, small, ff, final[0].get("digest"), tries, original=rec)
             print(f"VIOLATION property={check.prop} replay={path}")
             print(f"  oracle={ff['oracle']}: {ff['msg']}")
@@ -490,6 +499,10 @@ def _main(check, args):
     if vac:
         print(f"HARNESS-ERROR property={check.prop} the check could not exercise the property: {vac}")
         exit_code = max(exit_code, EXIT_HARNESS)
+    if reported:
+        # at least one violation was confirmed on re-execution and written as a replay: that is the verdict, whatever
+        # else went wrong alongside (harness errors are still printed above and counted in the evidence)
+        exit_code = EXIT_VIOLATION
     wall = time.time() - t0
     cov = check.coverage(good, args.tier)
     cov.setdefault("runs_skipped_for_wall_budget", skipped)
